@@ -1212,7 +1212,7 @@ theorem decRun_leavesSafe (t : Tick) (ht : TickKeepsSafe t) (e : Env) (w : Store
       split at h
       · simp only [pure, Except.pure, Except.ok.injEq, Prod.mk.injEq] at h
         obtain ⟨rfl, _, _⟩ := h
-        by_cases hr : cc.1.status = .running
+        by_cases hr : (decUpdate e k0 c1.status).2.1 = .invalid ∨ cc.1.status = .running
         · simpa [leavesSafe, hr] using stopInv_leavesSafe _ hc2'
         · simpa [leavesSafe, hr] using hc2'
       · simp only [pure, Except.pure, Except.ok.injEq, Prod.mk.injEq] at h
